@@ -120,17 +120,28 @@ def _gen_cli(rng, cfg, files, wsdocs, nout):
         op["ws"] = wsf
     elif cmd == "prune":
         op["ws"] = wsf
-        op["channel"] = [pick(ch, "nochan")] if rng.random() < 0.3 and len(ch) > 1 else []
-        op["sample"] = [pick(sm, "nosample")] if rng.random() < 0.3 else []
-        op["modifier"] = [pick(md, "nomod") for _ in range(rng.choice([0, 1, 1, 2]))]
-        op["modifier_type"] = [rng.choice(mt)] if rng.random() < 0.3 else []
+        # every selection may be given several times
+        op["channel"] = [pick(ch, "nochan") for _ in range(rng.choice([1, 1, 2]))][: max(0, len(ch) - 1)] if rng.random() < 0.3 and len(ch) > 1 else []
+        op["sample"] = [pick(sm, "nosample") for _ in range(rng.choice([1, 1, 2]))] if rng.random() < 0.3 else []
+        op["modifier"] = [pick(md, "nomod") for _ in range(rng.choice([0, 1, 1, 2, 3]))]
+        op["modifier_type"] = rng.sample(mt, min(len(mt), rng.choice([1, 1, 2]))) if rng.random() < 0.3 else []
         op["measurement"] = [pick(ms, "nomeas")] if rng.random() < 0.3 and len(ms) > 1 else []
     elif cmd == "rename":
         op["ws"] = wsf
-        op["channel"] = [[pick(ch, "nochan"), "renamed_ch"]] if rng.random() < 0.4 else []
-        op["sample"] = [[pick(sm, "nosample"), "renamed_sample"]] if rng.random() < 0.4 else []
-        op["modifier"] = [[pick(md, "nomod"), "renamed_mod"]] if rng.random() < 0.5 else []
-        op["measurement"] = [[pick(ms, "nomeas"), "renamed_meas"]] if rng.random() < 0.4 else []
+        def pairs(pool, bad, new, p):
+            if rng.random() >= p:
+                return []
+            out = [[pick(pool, bad), new]]
+            if len(pool) > 1 and rng.random() < 0.35:
+                # a second pair of the same kind; sometimes a swap-like chain (the new name of the first is an old name)
+                other = rng.choice([x for x in pool if x != out[0][0]] or pool)
+                out.append([other, rng.choice([new + "2", out[0][0]])])
+            return out
+
+        op["channel"] = pairs(ch, "nochan", "renamed_ch", 0.4)
+        op["sample"] = pairs(sm, "nosample", "renamed_sample", 0.4)
+        op["modifier"] = pairs(md, "nomod", "renamed_mod", 0.5)
+        op["measurement"] = pairs(ms, "nomeas", "renamed_meas", 0.4)
     elif cmd == "combine":
         op["ws"] = wsf
         op["ws2"] = rng.choice([f for f in wsfiles if f != wsf] or wsfiles)
@@ -699,20 +710,25 @@ class World:
             # the text summary on stdout must carry the same facts as the library summary
             lines = [l.split() for l in r.stdout.splitlines() if l.strip()]
             missing = []
+
+            def row(*cells):
+                # a row is compared token by token: names are free text and may themselves contain blanks
+                return [t for c in cells for t in str(c).split()]
+
             for key, n in (("channels", len(refv["channels"])), ("samples", len(refv["samples"])), ("parameters", len(refv["parameters"])), ("modifiers", len(refv["modifiers"]))):
-                if [key, str(n)] not in lines:
+                if row(key, n) not in lines:
                     missing.append(f"summary {key} {n}")
             for cname, nb in refv["channels"]:
-                if [cname, str(nb)] not in lines:
+                if row(cname, nb) not in lines:
                     missing.append(f"channel {cname} {nb}")
             for sname in refv["samples"]:
-                if [sname] not in lines:
+                if row(sname) not in lines:
                     missing.append(f"sample {sname}")
             for pname, constraint, mtypes in refv["systematics"]:
-                if [pname, constraint, ",".join(sorted(set(mtypes)))] not in lines:
+                if row(pname, constraint, ",".join(sorted(set(mtypes)))) not in lines:
                     missing.append(f"parameter {pname} {constraint} {sorted(set(mtypes))}")
             for mname, poi, mpars in refv["measurements"]:
-                want = [mname, poi, ",".join(mpars) if mpars else "(none)"]
+                want = row(mname, poi, ",".join(mpars) if mpars else "(none)")
                 if want not in lines and ["(*)"] + want not in lines:
                     missing.append(f"measurement {want}")
             ctx.check(not missing, "values", dict(sig, cls="values", what="inspect_text"),
